@@ -96,6 +96,12 @@ def action_key_sources(act: Action) -> Dict[str, List[Tuple[str, ...]]]:
                         out.setdefault(k.value, []).extend(paths(vv))
             if isinstance(t, ast.Subscript) and isinstance(t.slice, ast.Constant) and isinstance(t.slice.value, str) and norm(t.value) != tokp:
                 out.setdefault(t.slice.value, []).extend(paths(v))
+    # the same keys written as keyword arguments of the blueprint constructor the action returns: `return XBlueprint(name=tok['name'], ...)`
+    for n in walk_no_nested(act.node):
+        if isinstance(n, ast.Call) and isinstance(n.func, ast.Name) and n.func.id.endswith('Blueprint'):
+            for k in n.keywords:
+                if k.arg is not None:
+                    out.setdefault(k.arg, []).extend(paths(k.value))
     return out
 
 
